@@ -600,6 +600,16 @@ func execD(e *lp.Exec, rc *recvCase, lg *capLogger, f []string) {
 	if (ec == 4 || ec == 5) && !has1009(ep.writes) && !ep.closed {
 		e.Oracle("c15-limit", "class=no-1009 err=%d but no close frame with code 1009 was written", ec)
 	}
+	// an oversize COMPRESSED message, seen on the implementation alone: the inflater handed out more than the limit
+	// (the byte beyond it is the probe) and Parse failed - whatever error value it returns, the peer must be answered with 1009
+	if L > 0 && ec != 0 && ec != 4 && !ep.closed && !has1009(ep.writes) {
+		for _, o := range ep.infl {
+			if len(o.out) > L {
+				e.Oracle("c15-limit", "class=no-1009 oversize compressed message (inflates to more than %d bytes) refused with err=%d but not answered with close code 1009", L, ec)
+				break
+			}
+		}
+	}
 }
 
 
@@ -704,7 +714,7 @@ func checkTwin(e *lp.Exec, rc *recvCase, tw twinResult, label string) {
 	if tw.verdict == "reject:too-big" || tw.verdict == "reject:ctl-len" {
 		if out == "ok" {
 			e.Oracle("c15-limit", "class=%s->ok oversized input accepted at=%d", tw.verdict, tw.at)
-		} else if !has1009(rc.writes) && rc.err != 2 && (rc.err == 4 || rc.err == 5) && !rc.e.closed {
+		} else if !has1009(rc.writes) && rc.err != 2 && rc.err != 0 && !rc.e.closed {
 			e.Oracle("c15-limit", "class=no-1009 %s refused with %s but no close frame with code 1009", tw.verdict, out)
 		}
 	}
